@@ -87,7 +87,7 @@ def run(tier, seed):
     new = [m for m in mm2 if m[2] == "unexplained"]
     chk.cov["selftest"] = {"corrupted_events": n, "rejected": len(new), "ok": len(new) >= n and n > 0}
     if not chk.cov["selftest"]["ok"]:
-        raise ToolError("self-test: corrupted reads were not rejected")
+        chk.selftest_failed("corrupted reads were not rejected")
     chk.cov["traces_validated_against_impl"] = runs
     chk.cov["rule"] = (f"{shards} shards x {20 if quick else 200} histories of 50 events over all 40 keys, 7 compound keys, 2x5 Sinclair controls, 8 Kempston bits, "
                        "4 mouse buttons, wheel, motion deltas incl. +-127/-128; after every event the CPU reads the 8 half-rows, 6 random selectors "
